@@ -1686,6 +1686,11 @@ pub fn verif_ntt_primes() -> Vec<u64> {
 }
 
 #[cfg(yamaquasi_verif)]
+pub fn verif_ntt_table() -> Vec<(u64, u64)> {
+    NTT_PRIMES.to_vec()
+}
+
+#[cfg(yamaquasi_verif)]
 impl<'a> MultiZmodP<'a> {
     /// (log2 of the largest supported transform, number of NTT primes)
     pub fn verif_kw(&self) -> (u32, usize) {
